@@ -151,7 +151,21 @@ fn c16_for<F: FElem>(out: &mut Vec<String>, rng: &mut Rng, reps: usize) {
             let conf = rand_conf(rng);
             let d = gen_data::<F>(prod, rng, false);
             // scaling by a power of two (exponents kept away from overflow / underflow)
-            let e = if F::TAG == "g" { rng.range(-20, 20) } else { rng.range(-200, 200) };
+            // exponents kept away from overflow / underflow: the unpaired dof takes fourth powers of
+            // the data, so max|x|·2^e (and min|x|·2^e) must stay within 2^±25 (f32) resp. 2^±200 (f64)
+            let (mx, mn) = {
+                let vals: Vec<f64> = match &d {
+                    Data::One(x) => x.iter().map(|v| v.to_f64().unwrap().abs()).collect(),
+                    Data::Two(x, y) => x.iter().chain(y.iter()).map(|v| v.to_f64().unwrap().abs()).collect(),
+                    _ => vec![1.0],
+                };
+                let mx = vals.iter().cloned().fold(1e-300, f64::max);
+                let mn = vals.iter().cloned().filter(|v| *v > 0.0).fold(mx, f64::min);
+                (mx.log2().ceil() as i64, mn.log2().floor() as i64)
+            };
+            let lim: i64 = if F::TAG == "g" { 25 } else { 200 };
+            let (elo, ehi) = ((-lim - mn).max(-lim), (lim - mx).min(lim));
+            let e = if elo <= ehi { rng.range(elo, ehi) } else { 0 };
             let k = F::from64((2.0f64).powi(e as i32));
             out.push(xf_line(prod, "scale", &format!("{}", e), conf, &d, conf, &map1(&d, &|x| x * k)));
             if prod == "geo" || prod == "harm" {
